@@ -6,7 +6,7 @@ import core
 import decsuite as ds
 import msggen
 
-THEOREMS = ["C03.c03_anticipated", "C03.c03_exceeded", "C03.c03_subceeded", "C03.c03_exact_ok", "C08.c08_skip_exceeded",
+THEOREMS = ["C03.c03_decided_by_consumed_prefix", "C03.c03_anticipated", "C03.c03_exceeded", "C03.c03_subceeded", "C03.c03_exact_ok", "C08.c08_skip_exceeded",
             "decode_ok", "runWalker_acct",
             "C03.c03_tables", "decode_sound", "C03.c03_accept_only_if", "C03.c03_accept_iff", "decodeCommand_sound", "decodeResponse_sound",
             "AcceptIff.tables_wf", "AcceptIff.type_accept_iff", "AcceptIff.command_accept_iff", "AcceptIff.response_accept_iff"]
@@ -152,6 +152,8 @@ def run(ctx, replay_case):
     })
 
 
-PROP = {"targets": ["TpmProofs.Props.AcceptIff"], "module": "TpmProofs.Props.AcceptIff", "theorems": THEOREMS, "run": run,
-        "assumptions": ["'earliest decidable point' over whole nested messages is covered by the per-step theorems + the monitor's consistency checks + "
-                        "correspondence with the model; the refinement of the counter machine to an offset-based region spec is not proved yet"]}
+PROP = {"targets": ["TpmProofs.Props.AcceptIff", "TpmProofs.Props.C03D"], "module": ["TpmProofs.Props.AcceptIff", "TpmProofs.Props.C03D"],
+        "checker_modules": ["TpmProofs.Props.AcceptIff", "TpmProofs.Props.C03D"], "theorems": THEOREMS, "run": run,
+        "assumptions": ["'earliest decidable point': that the verdict (and every detail of the error) is decided by the consumed prefix alone is a theorem "
+                        "(c03_decided_by_consumed_prefix); that no shorter prefix decides it is covered by the per-step theorems + the monitor's consistency "
+                        "checks + correspondence with the model, not by a theorem"]}
